@@ -186,12 +186,18 @@ func c14MempoolFrames(dump string) string {
 }
 
 // c14Watch runs f in its own goroutine and watches a progress counter: when it does not
-// advance for stall, all goroutines are dumped and ok=false is returned (f is abandoned).
-func c14Watch(progress *int64, stall time.Duration, f func()) (ok bool, dump string, pnc interface{}, stack string) {
-	done := make(chan struct{})
+// advance for stall, all goroutines are dumped and ok=false is returned; f is abandoned:
+// *abort is set so that whatever part of it is not blocked winds down, and the watcher waits
+// (bounded) for it, so that a retry does not share the simulator's globals with it.
+func c14Watch(progress *int64, stall time.Duration, abort *int32, f func()) (ok bool, dump string, pnc interface{}, stack string) {
+	type result struct {
+		pnc   interface{}
+		stack string
+	}
+	done := make(chan result, 1)
 	go func() {
-		defer close(done)
-		pnc, stack = verifutil.Catch(f)
+		p, st := verifutil.Catch(f)
+		done <- result{p, st}
 	}()
 	last := atomic.LoadInt64(progress)
 	lastChange := time.Now()
@@ -199,13 +205,19 @@ func c14Watch(progress *int64, stall time.Duration, f func()) (ok bool, dump str
 	defer tick.Stop()
 	for {
 		select {
-		case <-done:
-			return true, "", pnc, stack
+		case r := <-done:
+			return true, "", r.pnc, r.stack
 		case <-tick.C:
 			if cur := atomic.LoadInt64(progress); cur != last {
 				last, lastChange = cur, time.Now()
 			} else if time.Since(lastChange) > stall {
-				return false, c14Goroutines(), nil, ""
+				dump = c14Goroutines()
+				atomic.StoreInt32(abort, 1)
+				select {
+				case <-done:
+				case <-time.After(15 * time.Second):
+				}
+				return false, dump, nil, ""
 			}
 		}
 	}
@@ -1031,7 +1043,7 @@ func c14SeqOptions(sc int, seed uint64, r *verifutil.Rng) (Options, *config.Memp
 	return o, mp
 }
 
-func c14RunSeq(rep *verifutil.Report, t *testing.T, sc int, nOps int, progress *int64) {
+func c14RunSeq(rep *verifutil.Report, t *testing.T, sc int, nOps int, progress *int64, abort *int32) {
 	seed := scenSeed(sc)*31 + 14
 	r := verifutil.NewRng(seed, 14)
 	o, mp := c14SeqOptions(sc, seed, r)
@@ -1049,8 +1061,11 @@ func c14RunSeq(rep *verifutil.Report, t *testing.T, sc int, nOps int, progress *
 	s.senders = append(s.senders, w.Nodes[0]) // the pool's own address (coinbase)
 	s.rich = []*Actor{w.God, w.Nodes[1], w.Nodes[0]}
 	s.present = s.snapshot()
-	for i := 0; i < nOps && !s.stop; i++ {
+	for i := 0; i < nOps && !s.stop && atomic.LoadInt32(abort) == 0; i++ {
 		s.step()
+	}
+	if atomic.LoadInt32(abort) != 0 {
+		return
 	}
 	if s.syncing {
 		s.p.Chain.StopSync()
@@ -1073,12 +1088,12 @@ func TestVerifC14Seq(t *testing.T) {
 	}
 	rep := verifutil.NewReport()
 	defer rep.Write()
-	nScen := verifutil.Scale(6, 200)
+	nScen := verifutil.Scale(6, 120)
 	nOps := verifutil.Scale(500, 900)
 	for sc := 0; sc < nScen; sc++ {
 		var progress int64
-		run := func() { c14RunSeq(rep, t, sc, nOps, &progress) }
-		ok, dump, pnc, stack := c14Watch(&progress, c14Stall(), run)
+		var abort int32
+		ok, dump, pnc, stack := c14Watch(&progress, c14Stall(), &abort, func() { c14RunSeq(rep, t, sc, nOps, &progress, &abort) })
 		if pnc != nil {
 			rep.Violation("panic:"+verifutil.TopRepoFrame(stack), fmt.Sprintf("sequential scenario %d: panic %v", sc, pnc), map[string]interface{}{"stack": verifutil.Trunc(stack, 4000)})
 			continue
@@ -1090,13 +1105,14 @@ func TestVerifC14Seq(t *testing.T) {
 		at := atomic.LoadInt64(&progress)
 		fmt.Printf("C14: sequential scenario %d stalled at op %d; goroutines:\n%s\n", sc, at, dump)
 		var progress2 int64
-		ok2, dump2, _, _ := c14Watch(&progress2, c14Stall(), func() { c14RunSeq(rep, t, sc, nOps, &progress2) })
+		var abort2 int32
+		ok2, dump2, _, _ := c14Watch(&progress2, c14Stall(), &abort2, func() { c14RunSeq(rep, t, sc, nOps, &progress2, &abort2) })
 		if !ok2 {
 			rep.Violation("deadlock", fmt.Sprintf("sequential scenario %d: no operation completed for %v at op %d, and again at op %d when the scenario was re-run", sc, c14Stall(), at, atomic.LoadInt64(&progress2)),
 				map[string]interface{}{"scenario": sc, "op_first": at, "op_retry": atomic.LoadInt64(&progress2), "mempool_goroutines_first": c14MempoolFrames(dump), "mempool_goroutines_retry": c14MempoolFrames(dump2)})
 		} else {
 			rep.Inconcl("sequential scenario %d stalled for %v at op %d but the stall did not reproduce", sc, c14Stall(), at)
 		}
-		return // abandoned goroutines may still hold the simulator's globals
+		return // an abandoned goroutine may still hold the simulator's globals
 	}
 }
